@@ -87,6 +87,21 @@ pub fn near_misses(name: &str) -> Vec<String> {
             v.push(format!("{}{}", name, "\u{0}".repeat(pad - chars.len())));
         }
     }
+    // characters that packing, trimming or C-string handling lose: NUL and other controls, BOM, sigils - in
+    // front of the name (one to three of them), behind it, and the name right-aligned in a padded field
+    for c in ["\u{0}", "\u{1}", "\u{7f}", "\u{80}", "\u{feff}", "\u{200b}", "$", "@", "#", ".", "!", "-", "\\", "\"", "/"] {
+        for rep in 1..=3usize {
+            v.push(format!("{}{}", c.repeat(rep), name));
+        }
+        v.push(format!("{}{}", name, c));
+        v.push(format!("{}{}{}", c, name, c));
+    }
+    for pad in [8usize, 12, 16, 32] {
+        if pad > chars.len() {
+            v.push(format!("{}{}", "\u{0}".repeat(pad - chars.len()), name));
+            v.push(format!("{}{}", " ".repeat(pad - chars.len()), name));
+        }
+    }
     v.retain(|k| !refmodel::is_op(k));
     v.sort();
     v.dedup();
